@@ -8,7 +8,7 @@ out=/verif/seeded/$id; mkdir -p "$out"
 scratch=$(mktemp -d /var/tmp/seed.XXXXXX)
 trap 'rm -rf "$scratch"' EXIT
 rsync -a --exclude .git --exclude __pycache__ --exclude _seed /repo/ "$scratch/"
-mkdir -p "$scratch/_seed"; cp "$demo" "$scratch/_seed/demo.py"
+mkdir -p "$scratch/_seed"; cp "$(dirname "$demo")"/*.py "$scratch/_seed/" 2>/dev/null; cp "$demo" "$scratch/_seed/demo.py"
 ( cd "$scratch" && PYTHONPATH="$scratch" /venv/bin/python _seed/demo.py >/dev/null 2>&1 ); demo_clean=$?
 ( cd "$scratch" && patch -p1 -s < "$patch" ) || { echo "PATCH FAILED"; exit 3; }
 suite=$( cd "$scratch" && /venv/bin/python -m pytest -q -p no:cacheprovider --timeout=900 2>&1 | tail -1 )
